@@ -76,6 +76,9 @@ func c14Expectation(e c14Entry) c14Expect {
 	if e.name == "" || strings.ContainsAny(e.name, " \t\n") {
 		x.expressible = false
 	}
+	if e.prefix == "" {
+		x.expressible = false // a routing tag without a prefix registers nothing
+	}
 	addr := e.addr
 	if addr == "" {
 		addr = "10.9.9.9" // node address
@@ -199,11 +202,11 @@ func c14Sig(kind string, e c14Entry) string {
 
 func TestVerifC14Registrations(t *testing.T) {
 	L := ev.Begin("C14", "c14-registrations", "exploration",
-		"catalog entries: name {svc, svc-1, 'sv c'} x address {v4, v6, empty->node address} x port {0,80,65535} x urlprefix part {/x, foo.com/x, FOO.com/, :1234, foo.com (no slash), ${DC}.foo.com/, /[} x every <=2-subset of 21 option strings (strip, proto=https/tcp/grpc and values that select no scheme (tcp+sni, http, bare proto), weight=0.2/abc/Inf/empty/-1, redirect with and without url, host=dst, allow, a=\"b\", tlsskipverify, bare flag) x extra tags {none, v1, two tags, quoted, backslash, non-ASCII, spaced, newline, quote+newline+a second command}; each next to a second well-formed service. The generated commands go through route.NewTable as makeConfig would emit them. oracle: (a) the whole text is accepted and the well-formed neighbour is present; (b) an expressible entry yields the target that denotes it (service, host/path, destination, weight, tags, opts), an inexpressible one is absent. non-trivial = entry with options or extra tags")
-	names := []string{"svc", "svc-1", "sv c"}
+		"catalog entries: name {svc, svc-1, 'sv c', 'billing /pay'} x address {v4, v6, empty->node address} x port {0,80,65535} x urlprefix part {/x, foo.com/x, FOO.com/, :1234, foo.com (no slash), ${DC}.foo.com/, /[, empty} x every <=2-subset of 21 option strings (strip, proto=https/tcp/grpc and values that select no scheme (tcp+sni, http, bare proto), weight=0.2/abc/Inf/empty/-1, redirect with and without url, host=dst, allow, a=\"b\", tlsskipverify, bare flag) x extra tags {none, v1, two tags, quoted, backslash, non-ASCII, spaced, newline, quote+newline+a second command}; each next to a second well-formed service. The generated commands go through route.NewTable as makeConfig would emit them. oracle: (a) the whole text is accepted and the well-formed neighbour is present; (b) an expressible entry yields the target that denotes it (service, host/path, destination, weight, tags, opts), an inexpressible one is absent. non-trivial = entry with options or extra tags")
+	names := []string{"svc", "svc-1", "sv c", "billing /pay"}
 	addrs := []string{"10.1.2.3", "2001:db8::7", ""}
 	ports := []int{0, 80, 65535}
-	prefixes := []string{"/x", "foo.com/x", "FOO.com/", ":1234", "foo.com", "${DC}.foo.com/", "/["}
+	prefixes := []string{"/x", "foo.com/x", "FOO.com/", ":1234", "foo.com", "${DC}.foo.com/", "/[", ""}
 	optPool := []string{"strip=/x", "proto=https", "proto=tcp", "proto=grpc", "weight=0.2", "weight=abc", "weight=Inf", "weight=", "weight=-1", "redirect=301,https://t.example/", "redirect=301", "redirect=302,https://t.example$path", "host=be-$DC.internal", "host=dst", "allow=ip:10.0.0.0/8", "a=\"b\"", "tlsskipverify=true", "flag", "proto=tcp+sni", "proto=http", "proto"}
 	var optSets [][]string
 	optSets = append(optSets, nil)
@@ -216,7 +219,7 @@ func TestVerifC14Registrations(t *testing.T) {
 			optSets = append(optSets, []string{optPool[i], optPool[j]})
 		}
 	}
-	extras := [][]string{nil, {"v1"}, {"a", "b"}, {"say \"hi\""}, {"back\\slash"}, {"ünï"}, {" spaced "}, {"line\nbreak"}, {"v1", "say \"hi\""}, {"x\"\nroute del good tags \"y"}, {"x\"\nroute add evil / http://6.6.6.6:66/ tags \"y"}}
+	extras := [][]string{nil, {"v1"}, {"a", "b"}, {"say \"hi\""}, {"back\\slash"}, {"ünï"}, {" spaced "}, {"line\nbreak"}, {"v1", "say \"hi\""}, {"x\"\nroute del good tags \"y"}, {"x\"\nroute add evil / http://6.6.6.6:66/ tags \"y"}, {"x\" opts \"strip=/x"}, {"x\" weight 0.9 tags \"y"}}
 	var entries []c14Entry
 	for _, n := range names {
 		for ai, a := range addrs {
@@ -227,6 +230,9 @@ func TestVerifC14Registrations(t *testing.T) {
 							// full product on the dimensions that interact (options x tags x prefix); address/port/name rotate
 							if !ev.Thorough() && (ai+pi+oi+xi)%3 != 0 && !(n == "svc" && ai == 0 && pi == 1) {
 								continue
+							}
+							if pf == "" && len(os) > 0 {
+								continue // "urlprefix- opt=v" would register the prefix "opt=v": not what this row means
 							}
 							entries = append(entries, c14Entry{n, a, p, pf, os, x})
 						}
